@@ -136,6 +136,7 @@ func (d *Decoder) decodeOBUs(pkt *rtp.Packet) ([][]byte, error) {
 		d.resetFragments()
 	} else {
 		d.firstPacketReceived = true
+		d.resetFragments()
 	}
 
 	// last OBU will continue in next packet
